@@ -21,7 +21,16 @@ def run_one(args):
     mod = importlib.import_module("pmh.rules.%s" % prop)
     d = scratch.make_copy(src)
     try:
-        if not scratch.apply_edit(d, mt["file"], mt["old"], mt["new"], mt.get("count", 1)):
+        if mt.get("rename"):
+            import re
+            for root, _dirs, files in os.walk(os.path.join(d, "src")):
+                for f in files:
+                    p_ = os.path.join(root, f)
+                    s_ = open(p_).read()
+                    for a, b in mt["rename"].items():
+                        s_ = re.sub(r"(?<!\w)(?<![^.]\.)%s(?!\w)" % re.escape(a), b, s_)
+                    open(p_, "w").write(s_)
+        elif not scratch.apply_edit(d, mt["file"], mt["old"], mt["new"], mt.get("count", 1)):
             return (mt["name"], "skipped", "context not found (the tree changed)", [])
         try:
             facts = engine.load_facts("default", src_root=d, workname="mut%d" % slot)
@@ -42,7 +51,7 @@ def run_one(args):
 
 
 def run(ctx, prop, src=None):
-    table = [mt for mt in load_table() if mt["prop"] == prop]
+    table = [mt for mt in load_table() if mt["prop"] in (prop, "*")]
     res = {"applied": 0, "flagged": 0, "skipped": 0, "benign_applied": 0, "benign_silent": 0, "details": []}
     if not table:
         ctx.extra["mutants"] = res
@@ -83,7 +92,7 @@ def run(ctx, prop, src=None):
             res["benign_applied"] += 1
             if not rules:
                 res["benign_silent"] += 1
-                ctx.ok("BENIGN", "mutation smoke", "%s stays silent" % name, mt["file"])
+                ctx.ok("BENIGN", "mutation smoke", "%s stays silent" % name, mt["file"] or "src/")
             else:
                 ctx.instances.append({"rule": "BENIGN", "fn": "mutation smoke", "instance": "%s raised %s" % (name, rules), "where": mt["file"], "verdict": "checker false alarm on a benign edit (information)"})
     ctx.extra["mutants"] = res
